@@ -46,13 +46,13 @@ def st_rect(draw, m, scale=None, dyadic=False):
 
 
 @st.composite
-def st_ell(draw, m, scale=None):
+def st_ell(draw, m, scale=None, a_range=(0.1, 50), always_rotated=False):
     if scale is None:
         scale = draw(gen.st_logfloat(1e-4, 1e2))
-    a = draw(gen.st_logfloat(0.1, 50))
+    a = draw(gen.st_logfloat(*a_range))
     ext = [scale * draw(gen.st_logfloat(0.03, 1.0)) for _ in range(m)]
     lam = [(e / a) ** 2 for e in ext]
-    if draw(st.integers(0, 4)) == 0:
+    if not always_rotated and draw(st.integers(0, 4)) == 0:
         Q = np.eye(m)
     else:
         Q = rotation(m, [draw(st.floats(0, math.pi)) for _ in range(m * (m - 1) // 2)])
